@@ -1490,7 +1490,10 @@ class Interp:
         if isinstance(a, tuple) or isinstance(b, tuple):
             a2 = a if isinstance(a, tuple) else I(a)
             b2 = b if isinstance(b, tuple) else I(b)
-            return self._assume_slen(st, op, a2, b2)
+            ok = self._assume_slen(st, op, a2, b2)
+            if ok:
+                self._note_exhausted(st, a2, b2)
+            return ok
         if op == 'Lt':
             z.add_lt(a, b)
         elif op == 'Le':
@@ -1509,6 +1512,38 @@ class Interp:
             elif z.entails_le(b, a):
                 z.add_lt(b, a)
         return z.sat
+
+    def _note_exhausted(self, st, *vals):
+        """a branch decided that a slice length is 0: a slice cursor that stands over exactly that range is at its
+        end -- the same fact `next() == None` establishes (an early `if self.iter.len() == 0 { return None }`)"""
+        z = st.zone
+        for x in vals:
+            if x[0] != 'slen' or len(x) != 3 or not z.entails_le(x[2], x[1]):
+                continue
+            mids = set()
+
+            def walk(v, depth=0):
+                if not isinstance(v, tuple) or depth > 24:
+                    return
+                if len(v) == 5 and v[0] == 'sliceit':
+                    try:
+                        if z.entails_eq(v[2], x[1]) and z.entails_eq(v[3], x[2]):
+                            mids.add(v[1])
+                    except Exception:
+                        pass
+                    return
+                for w in v:
+                    if isinstance(w, tuple):
+                        walk(w, depth + 1)
+            for fr in st.frames.values():
+                for v in fr.values():
+                    walk(v)
+            for v in st.objs.values():
+                walk(v)
+            if len(mids) == 1:
+                mid = next(iter(mids))
+                if not (st.events and st.events[-1] == ('cursor-end', mid)):
+                    st.log('cursor-end', mid)
 
     def _assume_slen(self, st, op, a, b):
         """a, b: ('slen', lo, hi) or ('int', c)"""
@@ -1549,6 +1584,8 @@ class Interp:
                 return self.assume_cond(st, (op, a[2], b[2]), True)
             if z.entails_eq(a[1], b[1]):
                 return self.assume_cond(st, (op, a[2], b[2]), True)     # same start: compare the ends
+            if z.entails_eq(a[2], b[2]):
+                return self.assume_cond(st, (op, b[1], a[1]), True)     # same end: the later start is the shorter one
         return z.sat
 
     def decide(self, st, cond):
@@ -1606,6 +1643,8 @@ class Interp:
                         if z.entails_le(1, b[1]):
                             z.add_le(d, a[1], -1)
                     return [(st, ('tuple', (I(d), FALSE)) if op.endswith('WithOverflow') else I(d))]
+            if op.startswith(('Shl', 'Shr')):
+                self.shift_check(st, fid, v, a, b)
             return [(st, self.binop(st, op, a, b))]
         if k == 'un':
             x = self.eval_operand(st, fid, v['x'])
@@ -1769,6 +1808,40 @@ class Interp:
             for s2 in self.store(s, ptr, nvval):
                 out.append((s2, I(vi)))
         return out
+
+    INT_BITS = {'u8': 8, 'i8': 8, 'u16': 16, 'i16': 16, 'u32': 32, 'i32': 32, 'u64': 64, 'i64': 64,
+                'u128': 128, 'i128': 128, 'usize': 64, 'isize': 64}
+
+    def shift_check(self, st, fid, v, a, b):
+        """SHIFT: `x << n` / `x >> n` with an amount that is not provably below the width of `x` panics in builds
+        with overflow checks and silently shifts by `n % width` in the others -- a bit set built that way (one bit
+        per slot or per request, `1 << i`) aliases as soon as the container is larger than the word.  The amount
+        must be a constant below the width or bounded by the zone."""
+        o = v['l']
+        ty = None
+        if 'const' in o:
+            ty = o['const'].get('ty')
+        else:
+            q = o.get('copy') or o.get('move')
+            if q is not None and not q['proj'] and fid in st.fmeta:
+                body = self.facts.bodies.get(st.fmeta[fid][0])
+                if body is not None:
+                    ty = body.locals[q['local']]['ty']
+        bits = self.INT_BITS.get((ty or {}).get('name')) if (ty or {}).get('k') == 'prim' else None
+        if bits is None:
+            return
+        if b[0] != 'int':
+            ok = False
+        elif isinstance(b[1], int):
+            ok = 0 <= b[1] < bits
+        else:
+            ok = st.zone.entails_le(b[1], bits - 1)
+        self.oblig('SHIFT', ok, 'shift',
+                   'the shift amount %s is not proved to be below the width (%d bits) of the shifted value: the '
+                   'operation panics (overflow checks on) or shifts by the amount modulo %d (overflow checks off), '
+                   'so a bit per slot / per request aliases for containers larger than the word'
+                   % (b[1] if b[0] == 'int' else b[0], bits, bits), 'unproven',
+                   sample='amount %s < %d' % (b[1] if b[0] == 'int' else b[0], bits))
 
     def binop(self, st, op, a, b):
         z = st.zone
